@@ -1138,7 +1138,7 @@ def hdr_roundtrip(h):
 
 # ================================ registry ========================================================
 
-@oset("at5.registry.header-factory", ["C04", "C03"], [REG + ":HeaderFactory.create_from_message", REG + ":HeaderFactory._packet_id"])
+@oset("at5.registry.header-factory", ["C04", "C03", "C01"], [REG + ":HeaderFactory.create_from_message", REG + ":HeaderFactory._packet_id"])
 def reg_header_factory(h):
     """Section 3.b: address 0x80 0xB0, or 0x90 0xB0 for an extended message (type 0x1F), when sending
     to AirTouch.  Arbitrary factory state (counter 0..255), arbitrary message id and length."""
